@@ -292,8 +292,14 @@ class Oracle:
         want, exc, _ = self.budget.call(lambda: self.AutoDecoder().decode_message_payload(data), 50_000 + 2_000 * len(data))
         if exc is not None:
             return
-        frame_octets = hdlc_ref.build(0xA, False, b"\x03", b"\x21", 0x13, data)
-        frames, _ = hdlc_mon.run((False, True), [b"\x7e" + frame_octets + b"\x7e"])
+        # the payload is what counts: every header the frame may carry (segmentation bit, 1..4 octet addresses, any control octet)
+        hrng = self.ctx.rng("c12", "header", pi, self.ctx.counters.get("message_equivalence_checked_DlmsMessage", 0))
+        seg = hrng.random() < 0.4
+        dst = hrng.choice((b"\x03", b"\x00\x03", b"\x02\x04\x06\x09"))
+        src = hrng.choice((b"\x21", b"\x10\x21", b"\x02\x04\x06\x21"))
+        frame_octets = hdlc_ref.build(0xA, seg, dst, src, hrng.choice((0x13, 0x10, 0x03, hrng.randrange(256))), data)
+        if seg:
+            self.ctx.count("message_equivalence_frames_with_the_segmentation_bit")
         reader = hdlc_mon.new_reader((False, True))
         real_frames = reader.read(b"\x7e" + frame_octets + b"\x7e")
         msgs = [("DlmsMessage", DlmsMessage(data))]
